@@ -95,8 +95,8 @@ PROPERTIES={
    assumptions=["structure parameter nreqs enumerated 2..8 (quick) / 2..16 (thorough); a proof for symbolic nreqs would need a parametric netlist = a hand-written model (refused)"]),
  'C17': dict(level='other', engine='rtlvc',
    explanation="RTL queues proved per configuration by rtlvc; cycle-level queues checked natively on enumerated scenarios (bounded)",
-   claim="Mixed. Bounded stand-in for the cycle-level queues: NormalQueueCL / PipeQueueCL / BypassQueueCL, capacity 1..3, every legal order of the enqueueing and dequeueing blocks, seeded offer sequences: ready answers follow the table of the statement, FIFO order, occupancy bounded. RTL queues: Proof per configuration (capacity 1..4 quick / 1..8 thorough, entry width 1 and 8 with symbolic contents; unbounded in histories): the six RTL queue classes of stdlib/queues/queues.py and stdlib/stream/queues.py refine a FIFO: with the abstraction seq = [regs[(head+i) mod n] : i < count] and the invariant count<=n, head,tail<n, tail=(head+count) mod n, every protocol-legal cycle gives the rdy/val table of the statement for the queue kind, the dequeued message is the oldest accepted one (bypass: the incoming one when empty), count is the occupancy, and seq' = (seq ++ [msg] if enq)[1:] if deq. Violations are reported as traces from reset replayed on the real simulator.",
-   note="Cycle-level queues only by the bounded stand-in (method scheduling is outside rtlvc). Not covered: enrdy_queues.py, valrdy_queues.py (the latter does not import at the pinned commit). Capacity and width enumerated; contents symbolic (data independence is not assumed). Trusted: scheduler/tick composition (C01/C07), AstHelper, rtlvc.",
+   claim="Mixed. Bounded stand-in for the cycle-level queues: NormalQueueCL / PipeQueueCL / BypassQueueCL, capacity 1..3, every legal order of the enqueueing and dequeueing blocks, seeded offer sequences: ready answers follow the table of the statement, FIFO order, occupancy bounded. RTL queues: Proof per configuration (capacity 1..4 quick / 1..8 thorough, entry width 1 and 8 with symbolic contents; unbounded in histories): the six RTL queue classes of stdlib/queues/queues.py and stdlib/stream/queues.py and the four enable/ready (push-interface) queues of stdlib/queues/enrdy_queues.py (NormalQueue1RTL, PipeQueue1RTL, BypassQueue1RTL, BypassQueue2RTL; there the dequeue clause reads: deq.en is raised exactly when the consumer is ready and a message is available) refine a FIFO: with the abstraction seq = [regs[(head+i) mod n] : i < count] and the invariant count<=n, head,tail<n, tail=(head+count) mod n, every protocol-legal cycle gives the rdy/val table of the statement for the queue kind, the dequeued message is the oldest accepted one (bypass: the incoming one when empty), count is the occupancy, and seq' = (seq ++ [msg] if enq)[1:] if deq. Violations are reported as traces from reset replayed on the real simulator.",
+   note="Cycle-level queues only by the bounded stand-in (method scheduling is outside rtlvc). Not covered: enrdy_queues.py, valrdy_queues.py (the latter does not import at the pinned commit). Capacity and width enumerated; contents symbolic (data independence is not assumed). Trusted: scheduler/tick composition (C01/C07), AstHelper, rtlvc. stdlib/queues/valrdy_queues.py cannot be imported on this tree (InValRdyIfc / OutValRdyIfc no longer exist), so its classes are not instantiable and not covered. BypassQueue2RTL violates the 'enqueue iff not full' clause (known finding F16, reported as KNOWN-FINDING); the reset clause is not stated for the two enable/ready queues whose full bit has no reset logic.",
    extra=['contracts:c17_extra'], require_cover=False,
    assumptions=["enq/deq interface users respect the protocol (en only when rdy) for the EnqIfc/DeqIfc flavour; stream flavour: no assumption"]),
  'C20': dict(level='proof', engine='rtlvc',
